@@ -191,6 +191,51 @@ def downBy (f : List Rat → Rat) (s : Src) (k : Nat) : Except Err Cont :=
     else .ok { start := c.start + (c.dt * ((k : Int) - 1)) / 2, dt := c.dt * k,
                data := (blocks k c.data).map f }
 
+/-! ### long channels described by a rule: windows of the answers
+
+A recording of minutes holds millions of samples; such a channel is handed to the model as a RULE
+(`sample i = v i`) and the model answers a WINDOW `i0 ≤ i < i0 + cnt` of the downsampled channel
+together with the total number of samples, computed from the rule without ever building the source
+list.  `by_window_spec` / `to_window_spec` (Props) prove that the window is that slice of the full
+answer of `downBy` / `downTo`. -/
+
+/-- The value rule of the long inputs: sample `i` is `((a·i + b·⌊i/w⌋) mod m − c) / den`. -/
+structure Rule where
+  a : Nat
+  b : Nat
+  w : Nat
+  m : Nat
+  c : Int
+  den : Nat
+deriving Repr, DecidableEq
+
+def Rule.val (g : Rule) (i : Nat) : Rat :=
+  (((((g.a * i + g.b * (i / g.w)) % g.m : Nat) : Int) - g.c : Int) : Rat) / (g.den : Rat)
+
+/-- The continuous channel whose `n` samples follow the rule `v`. -/
+def contOf (start dt : Int) (n : Nat) (v : Nat → Rat) : Cont := ⟨start, dt, (List.range n).map v⟩
+
+/-- Sample `i` of the channel downsampled by `k`, from the rule: `f` of `v (i·k), …, v (i·k + k - 1)`,
+    stamped with the midpoint of the block. -/
+def blockSample (f : List Rat → Rat) (start dt : Int) (v : Nat → Rat) (k i : Nat) : Sample :=
+  (start + (i : Int) * ((k : Int) * dt) + (((k : Int) - 1) * dt) / 2, f ((List.range' (i * k) k).map v))
+
+/-- Entries `i0 ≤ i < i0 + cnt` of a list of `q` samples given by its index rule `g`. -/
+def winOf (g : Nat → Sample) (q i0 cnt : Nat) : List Sample :=
+  (List.range' i0 (min cnt (q - i0))).map g
+
+/-- Window of `downsampled_by(k)` of `contOf start dt n v` (which has `n / k` samples). -/
+def byWindow (f : List Rat → Rat) (start dt : Int) (n : Nat) (v : Nat → Rat) (k i0 cnt : Nat) : List Sample :=
+  winOf (blockSample f start dt v k) (n / k) i0 cnt
+
+/-- Number of samples of `downsampled_to` with step `k·dt` AS THE CODE IS (finding F3: a whole number
+    of blocks loses the last one). -/
+def toCount (n k : Nat) : Nat := if n % k = 0 then n / k - 1 else n / k
+
+/-- Window of `downsampled_to` (step `k·dt`, `where="center"`, `k < n`) of `contOf start dt n v`. -/
+def toWindow (f : List Rat → Rat) (start dt : Int) (n : Nat) (v : Nat → Rat) (k i0 cnt : Nat) : List Sample :=
+  winOf (blockSample f start dt v k) (toCount n k) i0 cnt
+
 /-! ### `downsampled_like` -/
 
 /-- `np.nonzero(np.diff(delta_time) > 0)`: the indices `i` with `d[i] < d[i+1]`. -/
@@ -357,7 +402,38 @@ def handleLike (pw : Bool) (rest : List String) : Option String := do
         some ("ok [" ++ ",".intercalate shown ++ "] " ++ showIntList (refc.map (·.1)))
   | _ => none
 
+def rule? (s : String) : Option Rule := do
+  match ← intList? s with
+  | [a, b, w, m, c, den] =>
+    if a < 0 ∨ b < 0 ∨ w ≤ 0 ∨ m ≤ 0 ∨ den ≤ 0 then none
+    else some ⟨a.toNat, b.toNat, w.toNat, m.toNat, c, den.toNat⟩
+  | _ => none
+
+def natPair? : List Int → Option (Nat × Nat)
+  | [a, b] => if a < 0 ∨ b < 0 then none else some (a.toNat, b.toNat)
+  | _ => none
+
+/-- the long-input ops: `<start> <dt> <n> [a,b,w,m,c,den] <reduce> <k> [i0,cnt;…]` -/
+def handleWin (isTo : Bool) (rest : List String) : Option String :=
+  match rest with
+  | [st, dt, n, g, r, k, ws] => do
+    let st ← int? st; let dt ← int? dt; let n ← nat? n; let g ← rule? g
+    let r ← reduce? r; let k ← nat? k
+    let ws ← (← intListList? ws).mapM natPair?
+    if dt ≤ 0 ∨ k = 0 then none
+    else if isTo then
+      if n ≤ k then some (showErr .value)
+      else some (" ".intercalate (["ok", toString (toCount n k)] ++
+        ws.map fun (i0, cnt) => showSamples (toWindow r.apply st dt n g.val k i0 cnt)))
+    else some (" ".intercalate (["ok", toString (dt * k), toString (n / k)] ++
+        ws.map fun (i0, cnt) => showSamples (byWindow r.apply st dt n g.val k i0 cnt)))
+  | _ => none
+
 /-- ops:
+  `c04.bywin <start> <dt> <n> [a,b,w,m,c,den] <reduce> <k> [i0,cnt;…]`  long channel given by a rule:
+        `ok <dt·k> <number of samples> <window>…` of `downsampled_by(k)`
+  `c04.towin <start> <dt> <n> [a,b,w,m,c,den] <reduce> <k> [i0,cnt;…]`  the same for `downsampled_to` with
+        step `k·dt` and `where="center"`: `ok <number of samples> <window>…`, `ValueError` when `n ≤ k`
   `c04.over <src> <reduce> <where> [a,b;c,d;…]`
   `c04.to   <src> <reduce> <where> <method> <step>`
   `c04.by   <src> <reduce> <k>`
@@ -367,6 +443,8 @@ def handleLike (pw : Bool) (rest : List String) : Option String := do
   `c04.repair [d…]`                          the change-point repair alone
   where `<src>` is `cont <start> <dt> [v…]` or `ts [t…] [v…]` (values `p/q`). -/
 def handle : List String → Option String
+  | "c04.bywin" :: rest => handleWin false rest
+  | "c04.towin" :: rest => handleWin true rest
   | "c04.over" :: rest => do
     let (s, rest) ← mkSrc? rest
     match rest with
